@@ -31,6 +31,23 @@ class Part:
         return 'Part(%s, first=%s)' % (['?' if x is None else x for x in self.layout], self.first and (self.first[0], self.first[-1]))
 
 
+WORDS = [b'a', b'1', b'if', b'else', b'.', b'[', b'(', b'{', b'+', b'=', b'try', b')', b'::', b';']
+WORD_WIDTH = 4
+
+
+def word_parts(k, words=WORDS, prefix=b'', extra=(), width=WORD_WIDTH):
+    """token-level inputs: `prefix` followed by k slots of `width` bytes, each holding one dictionary word padded with
+    spaces (so tokens are separated by whitespace); the first slot's word is fixed per partition, the others symbolic"""
+    parts = []
+    for w in words:
+        layout = ([prefix] if prefix else []) + [w.ljust(width)] + [None] * (width * (k - 1))
+        p = Part(layout, None, extra=extra)
+        base = len(prefix) + width
+        p.slots = [(base + width * j, width, [x.ljust(width) for x in words]) for j in range(k - 1)]
+        parts.append(p)
+    return parts
+
+
 def build_for(extra_args):
     def build(part):
         st = State()
@@ -46,6 +63,8 @@ def build_for(extra_args):
             else:
                 for c in item:
                     st.mem[BUF + pos] = c; bs.append(c); pos += 1
+        for (start, width, words) in getattr(part, 'slots', []):
+            st.pc.append(z3.Or(*[z3.And(*[bs[start + i] == w[i] for i in range(width)]) for w in words]))
         return st, [BUF, pos] + list(extra_args) + list(part.extra), {'text': bs}
     return build
 
